@@ -6,7 +6,7 @@
     functions ([paths_of], [paths_to], [connected_components], ...) transcribe graph/*.go; panics
     and fuel exhaustion are the result values [Panic]/[Hang], so "returns [Ok]" includes
     termination of every loop and recursion of the model. *)
-From Algo.C14 Require Import Spec ProofsBasic ProofsTrav ProofsReach ProofsBfs ProofsScc ProofsCC ProofsSpt ProofsTopo ProofsCycle ProofsOrders ProofsMsf1 ProofsMsf2 ProofsDijkstra ProofsKosaraju ProofsKosaraju1 ProofsScc2.
+From Algo.C14 Require Import Spec ProofsBasic ProofsTrav ProofsReach ProofsBfs ProofsScc ProofsCC ProofsSpt ProofsTopo ProofsCycle ProofsOrders ProofsMsf1 ProofsMsf2 ProofsDijkstra ProofsKosaraju ProofsKosaraju1 ProofsScc2 ProofsPrim1 ProofsPrim2 ProofsPrim3.
 
 (** * The property at full strength *)
 Definition nonneg (es : list edge) : Prop := forall e, In e es -> (0 <= e_w e)%Z.
@@ -56,7 +56,8 @@ Definition C14_full : Prop :=
              | _ => False
              end).
 
-(** * What is proved *)
+(** * What is proved: every clause of [C14_full] (see [C14_full_holds] at the end), plus unbounded
+    soundness theorems for the certificate checkers that the correspondence runs on the Go outputs *)
 
 (** The adjacency relation of a constructed graph is exactly what the edge list says. *)
 Theorem C14_graph_edges :
@@ -239,21 +240,20 @@ Theorem C14_check_msf_sound :
     forall T', spanning_forest g T' -> (weight_of T <= weight_of T')%Z.
 Proof. intros n es T. exact (check_msf_sound n es T). Qed.
 
-(** Clause 6 (Prim), partial: whenever the forest computed by Prim passes the checker it is a
-    minimum spanning forest and [Weight()] is its weight.  Missing: that Prim's output always
-    passes (checked on every generated graph by the extracted checker). *)
-Theorem C14_prim_partial :
-  forall n es f w,
+(** Clause 6 of [C14_full], fully proved (any integer weights): Prim (eager, run from every
+    unvisited vertex) terminates; [Edges()] is a spanning forest of minimum total weight and
+    [Weight()] is its weight.  (Invariant: for every threshold c, tree vertices joined by a path of
+    graph edges of weight <= c are joined by tree edges of weight <= c -- maintained because the
+    extracted key is the lightest edge leaving the tree; the certificate theorem behind
+    [C14_check_msf_sound] turns this into minimality.) *)
+Theorem C14_prim :
+  forall n es,
     let g := mk_graph false n es in
-    minimum_spanning_tree g = Ok (f, w) -> check_msf g f = true ->
-    w = weight_of f /\ spanning_forest g f /\
-    forall f', spanning_forest g f' -> (w <= weight_of f')%Z.
+    exists f w, minimum_spanning_tree g = Ok (f, w) /\ w = weight_of f /\ spanning_forest g f /\
+      forall f', spanning_forest g f' -> (w <= weight_of f')%Z.
 Proof.
-  intros n es f w g E H.
-  assert (Hw : w = weight_of f).
-  { unfold minimum_spanning_tree in E. destruct (prim_roots _ _ _); [|discriminate].
-    injection E as <- <-. reflexivity. }
-  destruct (check_msf_sound n es f H) as [A B]. subst w. auto.
+  intros n es g. destruct (prim_correct_mk n es) as [f [A [B C]]].
+  exists f, (weight_of f). auto.
 Qed.
 
 (** Soundness of the simple certificate checkers run on the implementation's answers. *)
@@ -269,6 +269,22 @@ Theorem C14_check_topo_sound :
   forall g order, wf g -> check_topo g order = true -> topological_order g order.
 Proof. exact check_topo_sound. Qed.
 
+(** * The property at full strength holds *)
+Theorem C14_full_holds : C14_full.
+Proof.
+  intros d n es g. unfold g.
+  split; [|split; [|split; [|split; [|split; [|split]]]]].
+  - intros sg s Hs. exact (C14_paths d n es sg s Hs).
+  - intros ->. destruct (C14_connected_components n es) as [c [E [_ H]]].
+    exists c. split; auto. intros v w Hv Hw. apply H; auto.
+  - intros ->. destruct (C14_scc n es) as [c [E [_ H]]].
+    exists c. split; auto. intros v w Hv Hw. apply H; auto.
+  - intros ->. exact (C14_directed_cycle n es).
+  - intros ->. exact (C14_topological n es).
+  - intros -> _. exact (C14_prim n es).
+  - intros -> Hnn s Hs. exact (C14_dijkstra n es s Hnn Hs).
+Qed.
+
 (** Non-vacuity. *)
 Example C14_example :
   let g := mk_graph true 4 [(0,1,0%Z); (1,2,0%Z); (2,0,0%Z); (2,3,0%Z)] in
@@ -276,6 +292,7 @@ Example C14_example :
   directed_cycle g = Ok (Some [2; 0; 1; 2]).
 Proof. vm_compute. split; reflexivity. Qed.
 
+Print Assumptions C14_full_holds.
 Print Assumptions C14_graph_edges.
 Print Assumptions C14_paths.
 Print Assumptions C14_paths_visited.
@@ -290,7 +307,7 @@ Print Assumptions C14_check_spt_sound.
 Print Assumptions C14_dijkstra.
 Print Assumptions C14_dijkstra_passes_check.
 Print Assumptions C14_check_msf_sound.
-Print Assumptions C14_prim_partial.
+Print Assumptions C14_prim.
 Print Assumptions C14_check_path_sound.
 Print Assumptions C14_check_cycle_sound.
 Print Assumptions C14_check_topo_sound.
